@@ -309,12 +309,83 @@ func workerMain(args []string) {
 		w.WriteByte('\n')
 		w.Flush()
 	}
+	// A panicking operator goroutine lets the puller see a clean end of stream
+	// before the runtime kills the process: do not exit 0 under its feet.
+	time.Sleep(150 * time.Millisecond)
 	os.Exit(0)
 }
 
+// runWorker runs one worker process over tasks and returns the results it
+// wrote, the ids in the order they were started, and how it ended.
+func runWorker(exe, base string, tasks []task) (res map[int]result, started []int, runErr error, stderr string, err error) {
+	tf, rf := base+".tasks", base+".results"
+	f, err := os.Create(tf)
+	if err != nil {
+		return nil, nil, nil, "", err
+	}
+	bw := bufio.NewWriter(f)
+	for _, t := range tasks {
+		b, _ := json.Marshal(t)
+		bw.Write(b)
+		bw.WriteByte('\n')
+	}
+	bw.Flush()
+	f.Close()
+	cmd := exec.Command(exe, "--worker", tf, rf, base+".d")
+	var eb strings.Builder
+	cmd.Stderr = &eb
+	runErr = cmd.Run()
+	res = map[int]result{}
+	if rfh, e := os.Open(rf); e == nil {
+		sc := bufio.NewScanner(rfh)
+		sc.Buffer(make([]byte, 1<<20), 256<<20)
+		for sc.Scan() {
+			var probe struct {
+				Start *int `json:"start"`
+			}
+			line := sc.Bytes()
+			if json.Unmarshal(line, &probe) == nil && probe.Start != nil {
+				started = append(started, *probe.Start)
+				continue
+			}
+			var r result
+			if json.Unmarshal(line, &r) == nil && r.Stages != nil {
+				res[r.ID] = r
+			}
+		}
+		rfh.Close()
+	}
+	os.RemoveAll(base + ".d")
+	if os.Getenv("C10_KEEP") == "" {
+		os.Remove(tf)
+		os.Remove(rf)
+	}
+	return res, started, runErr, eb.String(), nil
+}
+
+func crashText(stderr string, runErr error) string {
+	msg := stderr
+	if i := strings.Index(msg, "panic:"); i >= 0 {
+		msg = msg[i:]
+	} else if i := strings.Index(msg, "fatal error:"); i >= 0 {
+		msg = msg[i:]
+	}
+	if len(msg) > 900 {
+		msg = msg[:900]
+	}
+	if strings.TrimSpace(msg) == "" {
+		msg = fmt.Sprintf("worker exited: %v", runErr)
+	}
+	return msg
+}
+
 // runTasks executes the tasks on nproc worker processes and returns the
-// result of each (by task id).  A task during which the worker died gets
-// Crash set (with the tail of the worker's stderr).
+// result of each (by task id).  When a worker dies, the culprit is one of the
+// last two tasks it started (a panicking operator goroutine first closes its
+// result channel, so the puller may see a clean end of stream, write an empty
+// result and even start the next task before the process exits): both are
+// re-run alone, each in a process of its own, and a task whose private
+// process dies gets Crash set.
 func runTasks(scratch string, tasks []task, nproc int) (map[int]result, error) {
 	exe, err := os.Executable()
 	if err != nil {
@@ -339,92 +410,78 @@ func runTasks(scratch string, tasks []task, nproc int) (map[int]result, error) {
 		go func(si int) {
 			defer wg.Done()
 			pending := shards[si]
+			byID := map[int]task{}
+			for _, t := range pending {
+				byID[t.ID] = t
+			}
 			round := 0
 			for len(pending) > 0 {
 				round++
 				base := filepath.Join(scratch, fmt.Sprintf("w%d-%d", si, round))
-				tf, rf := base+".tasks", base+".results"
-				f, err := os.Create(tf)
+				res, started, runErr, stderr, err := runWorker(exe, base, pending)
 				if err != nil {
 					errs[si] = err
 					return
 				}
-				bw := bufio.NewWriter(f)
-				for _, t := range pending {
-					b, _ := json.Marshal(t)
-					bw.Write(b)
-					bw.WriteByte('\n')
+				suspects := map[int]bool{}
+				if runErr != nil {
+					if len(started) == 0 {
+						errs[si] = fmt.Errorf("worker %d died before its first task (%v): %s", si, runErr, stderr)
+						return
+					}
+					// the deferred cleanup of the dying goroutine (removing spill files)
+					// can take a while: suspect the last few tasks
+					for _, id := range started[max(0, len(started)-4):] {
+						suspects[id] = true
+						delete(res, id)
+					}
 				}
-				bw.Flush()
-				f.Close()
-				cmd := exec.Command(exe, "--worker", tf, rf, base+".d")
-				var stderr strings.Builder
-				cmd.Stderr = &stderr
-				runErr := cmd.Run()
-				done := map[int]bool{}
-				started := -1
-				if rfh, err := os.Open(rf); err == nil {
-					sc := bufio.NewScanner(rfh)
-					sc.Buffer(make([]byte, 1<<20), 256<<20)
-					for sc.Scan() {
-						var probe struct {
-							Start *int `json:"start"`
-						}
-						line := sc.Bytes()
-						if json.Unmarshal(line, &probe) == nil && probe.Start != nil {
-							started = *probe.Start
-							continue
-						}
-						var r result
-						if json.Unmarshal(line, &r) == nil && r.Stages != nil {
-							mu.Lock()
-							results[r.ID] = r
-							mu.Unlock()
-							done[r.ID] = true
+				// a group-by over a non-empty input that "cleanly" produced nothing
+				// is the signature of that race as well: re-run it alone
+				for id, r := range res {
+					if k := byID[id].Kind; (k == "gb" || k == "gb2" || k == "prog") && len(r.Stages) > 0 {
+						last := r.Stages[len(r.Stages)-1]
+						if last.Err == "" && len(last.Batches) == 0 {
+							suspects[id] = true
+							delete(res, id)
 						}
 					}
-					rfh.Close()
 				}
-				os.RemoveAll(base + ".d")
-				if os.Getenv("C10_KEEP") == "" {
-					os.Remove(tf)
-					os.Remove(rf)
+				mu.Lock()
+				for id, r := range res {
+					results[id] = r
+				}
+				mu.Unlock()
+				ids := make([]int, 0, len(suspects))
+				for id := range suspects {
+					ids = append(ids, id)
+				}
+				sort.Ints(ids)
+				for k, id := range ids {
+					sres, _, sErr, sStderr, err := runWorker(exe, fmt.Sprintf("%s-solo%d", base, k), []task{byID[id]})
+					if err != nil {
+						errs[si] = err
+						return
+					}
+					r, ok := sres[id]
+					if sErr != nil || !ok {
+						r = result{ID: id, Crash: crashText(sStderr, sErr)}
+					}
+					mu.Lock()
+					results[id] = r
+					mu.Unlock()
 				}
 				var rest []task
-				crashed := false
-				if runErr != nil && started >= 0 {
-					// A panicking operator goroutine runs its deferred close() of the
-					// result channel first, so the puller may see a clean end of stream
-					// and the task's (empty) result may be written before the process
-					// dies: the task started last is the one that crashed.
-					delete(done, started)
-				}
 				for _, t := range pending {
-					if done[t.ID] {
-						continue
+					mu.Lock()
+					_, ok := results[t.ID]
+					mu.Unlock()
+					if !ok {
+						rest = append(rest, t)
 					}
-					if t.ID == started && !crashed {
-						crashed = true
-						msg := stderr.String()
-						if i := strings.Index(msg, "panic:"); i >= 0 {
-							msg = msg[i:]
-						}
-						if len(msg) > 600 {
-							msg = msg[:600]
-						}
-						if msg == "" {
-							msg = fmt.Sprintf("worker exited: %v", runErr)
-						}
-						mu.Lock()
-						results[t.ID] = result{ID: t.ID, Crash: msg}
-						mu.Unlock()
-						continue
-					}
-					rest = append(rest, t)
 				}
-				if !crashed && len(rest) > 0 {
-					// the worker stopped without a task in flight: a harness/tool failure
-					errs[si] = fmt.Errorf("worker %d stopped early (%v; last started task %d, %d done, %d left; files %s): %s", si, runErr, started, len(done), len(rest), base, stderr.String())
+				if runErr == nil && len(rest) > 0 {
+					errs[si] = fmt.Errorf("worker %d finished without a result for %d tasks: %s", si, len(rest), stderr)
 					return
 				}
 				pending = rest
